@@ -80,18 +80,23 @@ def index_recipe(rng, rows, dtype=None, mode=None):
         if dt[0] == 'u' or dt == 'i1':
             start = step * rows + rng.randint(0, 5)
         step = -step
+    above = mode == 'edge_above'       # (always on the non-uniform side of the limit, with margin)
+    if above:
+        mode = 'edge'
     if mode == 'edge':
         # one sample displaced so that the squared relative deviation of the differences from their median lies just below or
         # just above the library's documented limit of 0.001 (relative displacement ~3.16 %)
         if SIZES[dt] == 1:
             mode = 'uniform'
         elif isint:
-            step = rng.choice([30, 31, 33, 34, 40]) * (1 if step > 0 else -1)
+            step = rng.choice([30, 31, 33, 34, 40] if not above else [28, 29, 30]) * (1 if step > 0 else -1)
             jit = [0, 1, 0, 0, 0]
             if step < 0:
                 start = abs(step) * rows + 5
         else:
-            jit = [0, step * rng.choice([0.03, 0.031, 0.0322, 0.034]), 0, 0, 0]
+            jit = [0, step * rng.choice([0.03, 0.031, 0.0322, 0.034] if not above else [0.034, 0.036]), 0, 0, 0]
+    if above and mode != 'edge':
+        mode = 'noisy'
     if mode == 'near' and not isint:
         jit = [0, step * 1e-4, -step * 2e-4, 0, step * 3e-4]
     elif mode in ('mono', 'mono_dec'):
